@@ -75,7 +75,7 @@ Definition spec_codec (mds : list mdmap) (order : list bytes) (obs_md : option m
   end.
 
 Definition res_code (r : sres) : Z :=
-  match r with ROk => 0 | RErrHeadersSent => 1 | RErrTrailersSent => 2 | RErrWrite => 3 end.
+  match r with ROk => 0 | RErrHeadersSent => 1 | RErrTrailersSent => 2 | RErrWrite => 3 | RErrMarshal => 4 end.
 
 Definition env_obs (e : wenv Z Z Z) : Z * list Z * list Z :=
   match e with
